@@ -4,6 +4,7 @@ from __future__ import annotations
 import ast
 
 from .. import astq
+from ..model import ClassRef
 from ..core import AnalysisError
 
 LEVEL = 'other'
@@ -166,7 +167,7 @@ def run(ctx, rep):
         for i in range(3):
             consumed.append(i)
             yield i
-    tabm = Obj('tableau')
+    tabm = Obj('tableau', __srcclass__=(m, ClassRef('pytableaux.proof.tableaux', 'Tableau')))
     tabm.stepiter = gen
     r = it.safe(b, [tabm])
     ok = r is tabm and consumed == [0, 1, 2]
@@ -174,7 +175,7 @@ def run(ctx, rep):
     if not ok:
         rep.finding(R3, 'C09.R3/build', m.loc(TAB, b), 'Tableau.build', f'does not exhaust stepiter() and return self (consumed {consumed}, returned {r!r})')
     steps = iter(['e1', 'e2', None, 'e3'])
-    tabm2 = Obj('tableau')
+    tabm2 = Obj('tableau', __srcclass__=(m, ClassRef('pytableaux.proof.tableaux', 'Tableau')))
     tabm2.step = lambda: next(steps)
     out = it.generate(si, [tabm2])
     ok = out == ['e1', 'e2']
